@@ -15,28 +15,28 @@ const (
 )
 
 var (
-	SkipDir    = real.SkipDir
-	SkipAll    = fs.SkipAll
+	SkipDir       = real.SkipDir
+	SkipAll       = fs.SkipAll
 	ErrBadPattern = real.ErrBadPattern
 )
 
 type WalkFunc = real.WalkFunc
 
-func Join(elem ...string) string           { return real.Join(elem...) }
-func Base(p string) string                 { return real.Base(p) }
-func Dir(p string) string                  { return real.Dir(p) }
-func Ext(p string) string                  { return real.Ext(p) }
-func Clean(p string) string                { return real.Clean(p) }
-func Split(p string) (string, string)      { return real.Split(p) }
-func SplitList(p string) []string          { return real.SplitList(p) }
-func IsAbs(p string) bool                  { return real.IsAbs(p) }
-func ToSlash(p string) string              { return real.ToSlash(p) }
-func FromSlash(p string) string            { return real.FromSlash(p) }
-func VolumeName(p string) string           { return "" }
+func Join(elem ...string) string               { return real.Join(elem...) }
+func Base(p string) string                     { return real.Base(p) }
+func Dir(p string) string                      { return real.Dir(p) }
+func Ext(p string) string                      { return real.Ext(p) }
+func Clean(p string) string                    { return real.Clean(p) }
+func Split(p string) (string, string)          { return real.Split(p) }
+func SplitList(p string) []string              { return real.SplitList(p) }
+func IsAbs(p string) bool                      { return real.IsAbs(p) }
+func ToSlash(p string) string                  { return real.ToSlash(p) }
+func FromSlash(p string) string                { return real.FromSlash(p) }
+func VolumeName(p string) string               { return "" }
 func Match(pattern, name string) (bool, error) { return real.Match(pattern, name) }
-func Rel(base, targ string) (string, error) { return real.Rel(base, targ) }
-func Abs(p string) (string, error)         { return simos.Clean(p), nil }
-func EvalSymlinks(p string) (string, error) { return p, nil }
+func Rel(base, targ string) (string, error)    { return real.Rel(base, targ) }
+func Abs(p string) (string, error)             { return simos.Clean(p), nil }
+func EvalSymlinks(p string) (string, error)    { return p, nil }
 
 // Walk mirrors filepath.Walk (lexical order, Lstat on the root first).
 func Walk(root string, fn WalkFunc) error {
